@@ -257,6 +257,24 @@ def loop_cover(g: "Guard"):
                 elif isinstance(st, ast.With):
                     exits(st.body, in_handler)
         exits(loop.body)
+        # an exception handler around the check (or around what it is computed from) that carries on with the next element: only "this element
+        # is not an expression" (AttributeError) is the accepted reason -- a handler that also swallows TypeError / ValueError / Exception takes a
+        # failure of the check itself for "nothing to check"
+        subj = {n_.id for n_ in ast.walk(g.test) if isinstance(n_, ast.Name)}
+        for st in ast.walk(loop):
+            if not isinstance(st, ast.Try):
+                continue
+            in_try = any(x is g.node for b_ in st.body for x in ast.walk(b_)) or \
+                any(isinstance(x, ast.Name) and isinstance(x.ctx, ast.Store) and x.id in subj for b_ in st.body for x in ast.walk(b_))
+            if not in_try:
+                continue
+            for h in st.handlers:
+                swallows = not any(isinstance(x, ast.Raise) for x in ast.walk(h))
+                types_ = [ast.unparse(e_) for e_ in (h.type.elts if isinstance(h.type, ast.Tuple) else [h.type])] if h.type is not None else ["<everything>"]
+                wide = [t_ for t_ in types_ if t_.split(".")[-1] != "AttributeError"]
+                if swallows and wide:
+                    out.append((f"an element whose check raises {', '.join(wide)} is skipped by the handler at line {h.lineno} (only AttributeError -- the element "
+                                f"is not an expression -- means there is nothing to check)", h.lineno))
         # a conditional `continue` ahead of the guard skips the element (the AttributeError / hasattr / isinstance idioms -- "this element is not
         # an expression, there is nothing to check" -- are the accepted ones)
         elem_names = {n.id for n in ast.walk(loop.target) if isinstance(n, ast.Name)}
@@ -358,6 +376,8 @@ def expand(g: Guard, fn) -> Guard:
     if not isinstance(t, ast.Name) or neg or t.id not in env:
         return g
     v = env[t.id]
+    while isinstance(v, ast.Call) and isinstance(v.func, ast.Name) and v.func.id in ("sorted", "list", "tuple", "set", "frozenset") and len(v.args) == 1:
+        v = v.args[0]            # sorted(A - B) is empty exactly when A - B is
     if isinstance(v, ast.BinOp) and isinstance(v.op, ast.Sub):
         new = ast.parse(f"({ast.unparse(v.left)}).issubset({ast.unparse(v.right)})", mode="eval").body
         return Guard(g.mod, g.qual, g.node, new, True, g.ctxs, g.order)
